@@ -1423,7 +1423,7 @@ Proof.
   assert (HS' : SInv (snd (decorate st s p))).
   { destruct (decorate st s p) as [v st'] eqn:E. eapply SInv_decorate; eauto. }
   split; [exact HS'|]. clear HS'.
-  unfold decorate. destruct (existsb _ _); cbn [snd]; [auto|].
+  unfold decorate. destruct (negb _ || existsb _ _); cbn [snd]; [auto|].
   set (N := length (st_decs st)).
   set (new := mkDNode (di_fn p) (di_sig p) s DReady (di_cb p)).
   set (st1 := set_decs st (st_decs st ++ [new])).
